@@ -146,6 +146,11 @@ pub fn run(lines: &[String]) -> Vec<String> {
                 out.push("dropped".into());
             }
             "sleep_ms" => std::thread::sleep(std::time::Duration::from_millis(t[1].parse().unwrap())),
+            "reg" => {
+                // user code announcing a cache through the public registry API: reg <cache> <tags|-> <events|-> <deps|->
+                let v = |x: &str| -> Vec<String> { if x == "-" { vec![] } else { x.split(',').map(|y| y.to_string()).collect() } };
+                cachelito_core::InvalidationRegistry::global().register(t[1], cachelito_core::InvalidationMetadata::new(v(t[2]), v(t[3]), v(t[4])));
+            }
             "inv_tag" => out.push(format!("inv {}", cachelito_core::invalidate_by_tag(t[1]))),
             "inv_event" => out.push(format!("inv {}", cachelito_core::invalidate_by_event(t[1]))),
             "inv_dep" => out.push(format!("inv {}", cachelito_core::invalidate_by_dependency(t[1]))),
@@ -213,6 +218,10 @@ pub fn run(lines: &[String]) -> Vec<String> {
                 chk("arc", a.estimate_memory(), 8 + 8);
                 let r = std::rc::Rc::new(5u32);
                 chk("rc", r.estimate_memory(), 8 + 4);
+                let ash = std::sync::Arc::new(String::with_capacity(40)); let _ash2 = ash.clone(); let _ash3 = ash.clone();
+                chk("arc_shared", ash.estimate_memory(), 8 + 24 + ash.capacity());
+                let rsh = std::rc::Rc::new(String::with_capacity(33)); let _rsh2 = rsh.clone();
+                chk("rc_shared", rsh.estimate_memory(), 8 + 24 + rsh.capacity());
                 let st: &str = "hello";
                 chk("str", st.estimate_memory(), 16 + 5);
                 let sl: &[u32] = &[1, 2, 3];
